@@ -14,7 +14,9 @@ RULE = (
     "relation derived from the edited listing (fallthrough, branch/call "
     "targets by label position, return edges = return sites of direct calls "
     "into the function). non-trivial = apply() returned with >=1 edit and "
-    ">=1 edge compared; distinct = distinct shape signatures."
+    ">=1 edge compared; distinct = distinct shape signatures. Modules and "
+    "patches as in C01 (zero-sized input blocks take and pass on "
+    "fallthrough, return and branch edges)."
 )
 ASSUMPTIONS = [
     "don't-care classes 1-4 of DESIGN 2.1 (halt fallthrough, no physically following code, edges of retained zero-sized blocks, predecessor of a proxy-deleted block)",
